@@ -63,6 +63,7 @@ def run(rep: Report, ctx: Any) -> str:
     rep.rule("R08.11", PROPERTY_RULE_TEXT)
     rep.rule("R08.14", FIXPOINT_RULE_TEXT)
     rep.rule("R08.15", POUR_RULE_TEXT)
+    rep.rule("R08.16", PICK_RULE_TEXT)
     rep.rule("R08.12", "the diagnostic of an omitted piece reaches the caller: where a parser function records diagnostics in a local "
                        "accumulator - an error value put into a container it created empty, or into a field declared as a list of errors "
                        "of an object it keeps in such a container - every return that hands the accumulator back hands it back entire: the "
@@ -206,6 +207,8 @@ def run(rep: Report, ctx: Any) -> str:
     _fixpoint_not_decided_by_one_item(rep, ctx)
     # ---- R08.15: diagnostics do not steer generation -----------------------------------------------------------------------------------
     _diagnostics_only_poured(rep, ctx)
+    # ---- R08.16: an emptied collection does not stop the render ---------------------------------------------------------------------
+    _picked_elements_exist(rep, ctx)
     # ---- R08.13 (sa/rules/rejected_items.py): a rejected item leaves nothing behind in the threaded registries
     from . import rejected_items
 
@@ -270,6 +273,47 @@ def _nothing_stale_remains(rep: Report, ctx: Any) -> None:
     rule = getattr(c01, "_rebuilt_from_empty", None)
     rep.require(callable(rule), "the no-stale-module rule of C01 (c01._rebuilt_from_empty), which R08.10 evaluates")
     rule(_Under(rep, "R08.10"), ctx)
+
+
+PICK_RULE_TEXT = (
+    "an emptied collection does not stop the render: what omitting a piece leaves behind is a smaller collection, possibly an empty one "
+    "(a tag whose operations were all refused keeps its collection, without endpoints). Where a template reads an attribute or an item "
+    "of, or calls, an element picked out of a collection - `| first`, `| last`, `| random`, `| min`, `| max`, `[<integer>]`, written "
+    "inline or held by a `set` / `with` variable - the collection is known to hold that element: at the dereference or where the "
+    "variable was bound, the template is inside a loop over the collection, or under conditions (truth table over their atoms; `and` / "
+    "`or` / inline-if count, and so does an arm that ended the iteration with continue / break) that leave no length below the one "
+    "needed - the collection or its length tested, its length compared with a constant; `.values()` / `| list` / `| sort` ... of a "
+    "collection are as empty as the collection - or the picked element itself was tested (truthy / `is defined`); a collection that is "
+    "(part of) a macro's argument may instead be known to hold it at every call of the macro. Otherwise jinja2 "
+    "answers the pick with Undefined and the dereference raises UndefinedError: the build stops between two files, and the unrelated "
+    "modules after it are never written")
+
+
+def _picked_elements_exist(rep: Report, ctx: Any) -> None:
+    from . import c08_picks
+
+    n = 0
+    found = c08_picks.sites_of({name: ti.tree for name, ti in sorted(ctx.jinja.templates.items())})
+    for name in sorted({st.template for st in found}):
+        by_key: dict[str, list[Any]] = {}
+        for st in found:
+            if st.template == name:
+                by_key.setdefault(st.key, []).append(st)
+        for key, sts in sorted(by_key.items()):
+            n += len(sts)
+            bad = [st for st in sts if not st.ok]
+            at = (bad or sts)[0]
+            rep.check(not bad, "R08.16", key,
+                      f"an attribute / item of `{c08_picks.expr_text(at.pick)[:80]}` is read (or it is called) where "
+                      f"`{c08_picks.expr_text(at.coll)[:60]}` is not known to hold {'an element' if at.need == 1 else f'{at.need} elements'}: "
+                      "when the pieces that would fill it were omitted the pick is Undefined, the dereference raises UndefinedError and the "
+                      "build stops before the remaining modules are written",
+                      where=f"openapi_python_client/templates/{name}:{getattr(at.node, 'lineno', 0)}",
+                      lhs=f"{len(bad)} of {len(sts)} dereferences unguarded", rhs="inside a loop over the collection / under a guard that implies it is non-empty")
+    rep.indexed["picked_element_dereferences"] = n
+    fired = c08_picks.control()
+    rep.control("R08.16 unguarded dereference of a picked element", fired)
+    rep.require(fired, "the positive control of R08.16 (a synthetic template with guarded and unguarded dereferences of picked elements)")
 
 
 FIXPOINT_RULE_TEXT = (
@@ -419,7 +463,7 @@ def _revisits_dependants(g: FuncInfo, names: set[str]) -> bool:
 
 def _removal_closed(rep: Report, ix: Any) -> None:
     pr = ix.func("properties._propogate_removal")
-    reg = region(ix, pr)
+    reg = _state_region(ix, pr)
     names = {g.name for g in reg}
     deletes_ref = any(_drops_entry(g, "classes_by_reference") for g in reg)
     pops_class = any(_drops_entry(g, "classes_by_name") for g in reg)
@@ -487,9 +531,42 @@ def _own_nodes(lp: ast.AST) -> list[ast.AST]:
 
 def _state_names(g: FuncInfo) -> set[str]:
     """names under which g holds the threaded state: parameters called schemas / parameters or annotated with the state classes,
-    locals created as Schemas(...) / Parameters(...)"""
+    locals created as Schemas(...) / Parameters(...); in a method of a state class, the receiver"""
     out = {p.arg for p in g.params if p.arg in THREADED or (p.annotation is not None and _type_names(p.annotation) & STATE_CLASSES)}
+    if g.cls is not None and g.cls.name in STATE_CLASSES and g.kind == "method" and g.params:
+        out.add(g.params[0].arg)
     return out | set(Locals(g.node).bound_from(lambda t_: t_.startswith(("Schemas(", "Parameters(")), "assign"))
+
+
+def _state_region(ix: Any, f: FuncInfo, depth: int = 3) -> list[FuncInfo]:
+    """f with the private helpers it delegates to (astutil.region) and - what a mechanism that works on the threaded state may equally
+    be moved into - the methods of the state classes (Schemas / Parameters) that these call on a state they hold (a parameter of that
+    type, a local created as one, the receiver inside such a method), each again with its private helpers; transitively."""
+    out: list[FuncInfo] = []
+    seen: set[str] = set()
+    frontier = [f]
+    for _ in range(depth + 1):
+        nxt: list[FuncInfo] = []
+        for h in frontier:
+            for g in region(ix, h):
+                if g.qual in seen:
+                    continue
+                seen.add(g.qual)
+                out.append(g)
+                state = _state_names(g)
+                kinds = {p.arg: _type_names(p.annotation) & STATE_CLASSES for p in g.params if p.annotation is not None}
+                for c in ast.walk(g.node):
+                    if not (isinstance(c, ast.Call) and isinstance(c.func, ast.Attribute) and isinstance(c.func.value, ast.Name)
+                            and c.func.value.id in state):
+                        continue
+                    own = {g.cls.name} if g.cls is not None and g.cls.name in STATE_CLASSES and g.params and c.func.value.id == g.params[0].arg else set()
+                    for cn in sorted(own or kinds.get(c.func.value.id) or STATE_CLASSES):
+                        k = next((k_ for k_ in ix.classes.values() if k_.name == cn and k_.module.name.startswith("openapi_python_client.parser")), None)
+                        m = ix.find_method(k, c.func.attr) if k is not None else None
+                        if m is not None and m.qual not in seen:
+                            nxt.append(m)
+        frontier = nxt
+    return out
 
 
 def _taken_from(v: ast.AST | None) -> str | None:
@@ -572,7 +649,7 @@ def _loops_contain(rep: Report, ix: Any, cfgs: dict[str, CFG]) -> None:
     for f in ix.all_functions:
         if short(f) not in CONTAIN_LOOPS:
             continue
-        for g in region(ix, f):
+        for g in _state_region(ix, f):
             if g.qual in done:
                 continue
             done.add(g.qual)
@@ -630,12 +707,29 @@ def _parses_ref_of(fn: ast.AST, names: set[str]) -> list[ast.Call]:
 
 
 def _allof_reference_recorded(rep: Report, ix: Any, pp: FuncInfo, cfgs: dict[str, CFG]) -> None:
-    """In the loop over data.allOf: from the statement that reads a member's reference (parse_reference_path(<member>.ref), inline or in a
-    private helper that receives the member), every way to the end of the iteration passes schemas.add_dependencies(ref_path=<what that
-    statement produced>, roots=roots).  Error returns leave the function and are not ends of an iteration."""
+    """In the loop over <data>.allOf - in _process_properties or in a private helper it delegates to (the function that holds the loop is
+    the one whose paths are judged): from the statement that reads a member's reference (parse_reference_path(<member>.ref), inline or in
+    a private helper that receives the member), every way to the end of the iteration passes schemas.add_dependencies(ref_path=<what that
+    statement produced>, roots=roots).  Error returns / raises leave the function and are not ends of an iteration."""
+    reg = region(ix, pp)
+    holders = [(g, [n for n in ast.walk(g.node) if isinstance(n, ast.For) and ".allOf" in resolved_text(n.iter, g.node)]) for g in reg]
+    holders = [(g, ls) for g, ls in holders if ls]
+    rep.require(holders, "loop over data.allOf in _process_properties (or in a private helper it delegates to)")
+    ok_all = True
+    n_reads = 0
+    for g0, loops in holders:
+        ok, n = _allof_loops_record(ix, g0, loops, cfgs)
+        ok_all = ok_all and ok
+        n_reads += n
+    g0, loops = holders[0]
+    rep.check(ok_all and n_reads > 0, "R08.1", "_process_properties::allOf-reference-recorded",
+              "an allOf parent is not recorded as a dependency of the child on every way through the iteration that resolved it",
+              where(g0, loops[0]), lhs=f"reference reads={n_reads}", rhs="every iteration end passes add_dependencies(ref_path=<parsed member.ref>, roots=roots)")
+
+
+def _allof_loops_record(ix: Any, pp: FuncInfo, loops: list[ast.For], cfgs: dict[str, CFG]) -> tuple[bool, int]:
+    """(every reference read in the loops of pp is followed by the recording on every way to the end of the iteration, number of reads)"""
     cfg = cfg_of(pp, cfgs)
-    loops = [n for n in ast.walk(pp.node) if isinstance(n, ast.For) and "data.allOf" in resolved_text(n.iter, pp.node)]
-    rep.require(loops, "loop over data.allOf in _process_properties")
     helpers = {g.name: g for g in region(ix, pp) if g is not pp}
     lc = Locals(pp.node)
     has_roots = "roots" in {p.arg for p in pp.params}
@@ -680,9 +774,7 @@ def _allof_reference_recorded(rep: Report, ix: Any, pp: FuncInfo, cfgs: dict[str
             seen = cfg.reachable_from(rd, avoid=records)
             ends = [n for n in seen if n is lp or (isinstance(n, ast.Break) and enclosing_loop_body(pp.node, n) is lp)]
             ok_all = ok_all and not ends
-    rep.check(ok_all and n_reads > 0, "R08.1", "_process_properties::allOf-reference-recorded",
-              "an allOf parent is not recorded as a dependency of the child on every way through the iteration that resolved it",
-              where(pp, loops[0]), lhs=f"reference reads={n_reads}", rhs="every iteration end passes add_dependencies(ref_path=<parsed member.ref>, roots=roots)")
+    return ok_all, n_reads
 
 
 # ---- R08.6: what may be recorded for removal ---------------------------------------------------------------------------------------
